@@ -486,43 +486,64 @@ def run_c18(ctx, chk):
     g.frame(ctx, chk, 'set_tab_stop', ['tabstops'])
     g.frame(ctx, chk, 'clear_tab_stop', ['tabstops'])
     g.frame(ctx, chk, 'tab', ['cursor.x'])
+    def known_member(st, v):
+        """is v known (on this path) to be / not to be a tab stop?  True / False / None, from the membership facts the path learnt"""
+        for k_, val in st.vn.items():
+            if isinstance(k_, tuple) and len(k_) == 2 and k_[0] == 'fact' and isinstance(k_[1], tuple) and len(k_[1]) == 3 and k_[1][0] == 'contains' \
+                    and k_[1][2] == v.key() and isinstance(val, bool):
+                ck = k_[1][1]
+                cur = get(eng, st, 'tabstops')
+                if isinstance(cur, CollV) and (ck == cur.key() or (isinstance(ck, tuple) and cur.cid in ck)):
+                    return val
+        return None
+
+    def keeps_nothing(eng_, st):
+        """`stops.retain(p)` where p, on an arbitrary element, is false on every path"""
+        cur = get(eng_, st, 'tabstops')
+        fl = st.vn.get(('filtered', cur.cid)) if isinstance(cur, CollV) else None
+        if fl is None or fl[3] != cur.ver or (len(fl) > 4 and fl[4]):
+            return False
+        s2 = st.fork()
+        c_ = eng_.fresh_num(s2, 'u32', name='stop')
+        root = ('H', 'probe-stop2')
+        s2.store[root] = c_
+        hooks, eng_.hooks = eng_.hooks, []
+        eng_.probing += 1
+        try:
+            res = eng_.call_value(s2, fl[1], [RefV((root, ()))], 0)
+        except Exception:
+            return False
+        finally:
+            eng_.probing -= 1
+            eng_.hooks = hooks
+        return bool(res) and all(isinstance(r_, BoolV) and eng_.eval_bool(s3, r_) is False for (s3, r_) in res)
+
+    def stop_ops(st):
+        ops_ = [ev for ev in st.event_list() if len(ev) > 1 and ev[1] == ('S', 'tabstops')]
+        repl = [ev for ev in st.event_list() if ev[0] == 'w' and ev[1] == ('tabstops',)]
+        return [o for o in ops_ if o[0] not in ('set.contains', 'set.member')], repl
     f = ep('set_tab_stop')
     bad = []
+    cnt = 0
     for r, st, ret in each_final(sr, f):
-        ops = [ev for ev in st.event_list() if ev[1] == ('S', 'tabstops')]
+        cnt += 1
+        ops, repl = stop_ops(st)
         x0 = st.vn[('entry', 'x')]
-        if not (len(ops) == 1 and ops[0][0] == 'set.insert' and isinstance(ops[0][2], NumV) and eng.prove_cmp(st, 'eq', ops[0][2], x0) is True):
-            bad.append(str([o[:3] for o in ops]))
-    how_decided = 'one insert of the cursor column on every path'
-    if bad:
-        # another shape (e.g. guarded by `contains`): decide the resulting set on exactly known stop sets
-        bad2 = []
-        for stops in ([], [8], [8, 16], [3], [0, 5]):
-            for x in (0, 3, 5, 8, 17):
-                got = tabs_op_run(ctx, 'set_tab_stop', stops, x, None)
-                want = lambda cols: sorted(set(stops) | {x})
-                for (known, xval) in got:
-                    w_ = sorted(set(stops) | ({x} if x != 'pending' else set()))
-                    if x == 'pending':
-                        if known is None or sorted(k for k in known if isinstance(k, int)) != sorted(stops) or len(known) != len(set(stops)) + 1:
-                            bad2.append('stops %s, cursor at the pending-wrap column: set becomes %s' % (stops, known))
-                    elif known is None or sorted(known) != w_:
-                        bad2.append('stops %s, cursor %s: set becomes %s, documented %s' % (stops, x, known, w_))
-                if not got:
-                    bad2.append('stops %s, cursor %s: no exit path' % (stops, x))
-        if not bad2:
-            bad = []
-            how_decided = 'resulting stop set equals stops + {cursor column} on 25 exactly known (stop set, cursor) classes'
-        else:
-            bad = bad + bad2[:2]
-    chk.instance('R-TABS', short(f), 'adds exactly the cursor column', not bad, detail='; '.join(bad[:2]) or how_decided, span=prog.bodies[f].span, what='HTS performs %s' % bad[:2])
+        ok = not repl and len(ops) == 1 and ops[0][0] == 'set.insert' and isinstance(ops[0][2], NumV) and eng.prove_cmp(st, 'eq', ops[0][2], x0) is True
+        if not ok and not repl and not ops and known_member(st, x0) is True:
+            ok = True          # `if !stops.contains(&x) { stops.insert(x) }`: nothing to do when the column is a stop already
+        if not ok:
+            bad.append('[%s] %s' % (r.label, [tuple(g.term(eng, st, x_) if isinstance(x_, NumV) else x_ for x_ in o[:3]) for o in (ops + repl)]))
+    chk.instance('R-TABS', short(f), 'adds exactly the cursor column', cnt > 0 and not bad,
+                 detail='; '.join(bad[:2]) or 'one insert of the cursor column on every path (or none where it is known to be a stop)',
+                 span=prog.bodies[f].span, what='HTS does not add exactly the cursor column (also in the pending-wrap column): %s' % bad[:2])
     f = ep('clear_tab_stop')
     bad = []
     cnt = 0
     seen_sel = set()
     for r, st, ret in each_final(sr, f):
         cnt += 1
-        ops = [ev for ev in st.event_list() if len(ev) > 1 and ev[1] == ('S', 'tabstops')]
+        ops, repl = stop_ops(st)
         a0 = st.vn.get(('entry-arg', 0))
         how = opt_payload(a0)
         x0 = st.vn[('entry', 'x')]
@@ -532,37 +553,20 @@ def run_c18(ctx, chk):
             lo, hi = eng.bounds(st, how)
             hv = lo if lo == hi else None
         if hv == 0:
-            ok = len(ops) == 1 and ops[0][0] == 'set.remove' and isinstance(ops[0][2], NumV) and eng.prove_cmp(st, 'eq', ops[0][2], x0) is True
+            ok = not repl and len(ops) == 1 and ops[0][0] == 'set.remove' and isinstance(ops[0][2], NumV) and eng.prove_cmp(st, 'eq', ops[0][2], x0) is True
+            if not ok and not repl and not ops and known_member(st, x0) is False:
+                ok = True      # nothing to remove where the column is known not to be a stop
         elif hv == 3:
-            ok = len(ops) == 1 and ops[0][0] == 'coll.clear'
+            ok = (not repl and len(ops) == 1 and ops[0][0] == 'coll.clear') or \
+                 (not ops and len(repl) == 1 and isinstance(repl[0][2], CollV) and repl[0][2].known == ()) or \
+                 (not repl and len(ops) == 1 and ops[0][0] == 'coll.retain' and keeps_nothing(eng, st))
         else:
-            ok = not ops
+            ok = not ops and not repl
         seen_sel.add(hv)
         if not ok:
-            bad.append('[%s] selector %s performs %s' % (r.label, hv, [o[0] for o in ops]))
+            bad.append('[%s] selector %s performs %s' % (r.label, hv, [o[0] for o in ops + repl]))
     if not {0, 3} <= seen_sel:
         bad.append('no separate path for selector(s) %s (the selector is not tested against them)' % sorted({0, 3} - seen_sel))
-    if bad:
-        bad2 = []
-        for stops in ([], [8], [8, 16], [3], [0, 5]):
-            for x in (0, 3, 5, 8):
-                for sel_ in (None, 0, 3, 1, 2, 4, 9999):
-                    got = tabs_op_run(ctx, 'clear_tab_stop', stops, x, sel_)
-                    if sel_ in (None, 0):
-                        w_ = sorted(set(stops) - {x})
-                    elif sel_ == 3:
-                        w_ = []
-                    else:
-                        w_ = sorted(stops)
-                    for (known, xval) in got:
-                        if known is None or sorted(known) != w_:
-                            bad2.append('stops %s, cursor %s, selector %s: set becomes %s, documented %s' % (stops, x, sel_, known, w_))
-                    if not got:
-                        bad2.append('stops %s, cursor %s, selector %s: no exit path' % (stops, x, sel_))
-        if not bad2:
-            bad = []
-        else:
-            bad = bad + bad2[:2]
     chk.instance('R-TABS', short(f), 'TBC 0/absent removes the stop at the cursor, 3 removes all, others nothing', cnt > 0 and not bad,
                  detail='; '.join(bad[:3]) or '%d exit states' % cnt, span=prog.bodies[f].span, what='; '.join(bad[:2]))
     # D3 tab: least stop strictly to the right, else the last column; order independent
